@@ -76,6 +76,7 @@ struct Config {
     int64_t tick_ns = 1000;     // simulated time per scheduling step
     int64_t epoch_real_ns = 1700000000ll * 1000000000ll;
     int64_t epoch_mono_ns = 1000;
+    size_t attr_stack_scale = 8;        // a stack size the code under test asks for (pthread_attr_setstacksize) is honoured, times this factor (instrumented frames are several times larger)
     size_t task_stack_bytes = 1 << 20;  // stack of each simulated task (a real thread); the translator engine asks for what a real thread has
     uint32_t libc_point_every = 0; // every n-th return of an intercepted libc writer (sprintf, strcpy, ...) is a scheduling point; 0 = never
     double sb_drain_prob = 0.3; // per scheduling step while some store buffer is non-empty: drain one delayed store
@@ -110,7 +111,7 @@ bool active();
 int  current_task();
 
 typedef void* (*TaskFn)(void*);
-int  spawn(TaskFn fn, void* arg);    // returns task id; child starts parked and runnable
+int  spawn(TaskFn fn, void* arg, size_t stack_bytes = 0);    // returns task id; child starts parked and runnable (stack_bytes 0: Config.task_stack_bytes)
 void join(int task);
 void join_all();                     // block task 0 until all other tasks are finished
 void yield(int kind, uint64_t obj);  // explicit scheduling point
